@@ -92,24 +92,30 @@ def splitExp (t : Str) : Option (Option (Char × Option Char × Str)) :=
           (if t1.all isDigit then some (some (l, none, t1)) else none)
     else none
 
-def splitNumeral (s : Str) : Option NumParts :=
-  let neg := s.head? = some '-'
-  let s1 := if neg then s.drop 1 else s
+/-- `[0-9]+(\.[0-9]+)?([eE][+-]?[0-9]+)?` then end of text -/
+def splitUnsigned (neg : Bool) (s1 : Str) : Option NumParts :=
   let ip := s1.takeWhile isDigit
   let s2 := s1.dropWhile isDigit
   if ip = [] then none else
   match s2 with
-  | '.' :: s3 =>
-    let fp := s3.takeWhile isDigit
-    let s4 := s3.dropWhile isDigit
-    if fp = [] then none else
-    match splitExp s4 with
-    | some ex => some ⟨neg, ip, some fp, ex⟩
-    | none => none
-  | _ =>
-    match splitExp s2 with
-    | some ex => some ⟨neg, ip, none, ex⟩
-    | none => none
+  | [] => some ⟨neg, ip, none, none⟩
+  | c :: s3 =>
+    if c = '.' then
+      (let fp := s3.takeWhile isDigit
+       let s4 := s3.dropWhile isDigit
+       if fp = [] then none else
+       match splitExp s4 with
+       | some ex => some ⟨neg, ip, some fp, ex⟩
+       | none => none)
+    else
+      match splitExp s2 with
+      | some ex => some ⟨neg, ip, none, ex⟩
+      | none => none
+
+def splitNumeral (s : Str) : Option NumParts :=
+  match s with
+  | [] => none
+  | c :: r => if c = '-' then splitUnsigned true r else splitUnsigned false s
 
 def isNumeral (s : Str) : Bool := (splitNumeral s).isSome
 
@@ -163,27 +169,31 @@ def lexExp (t : Str) : Option (Option Int) :=
         else (if t1.all isDigit then some (some (digitsVal t1 : Int)) else none)
     else none
 
-/-- the whole text as one INT_LIT / FLOAT_LIT token, and its value -/
-def lexNumber (t : Str) : Option CNum :=
-  let neg := t.head? = some '-'
-  let t1 := if neg then t.drop 1 else t
+/-- `DIGIT* ("." DIGIT*)? EXP?` with the side conditions of INT_LIT / FLOAT_LIT, to the end of the text -/
+def lexUnsigned (neg : Bool) (t1 : Str) : Option CNum :=
   let ip := t1.takeWhile isDigit
   let t2 := t1.dropWhile isDigit
   match t2 with
   | [] => if ip = [] then none else some (.int (signed neg (digitsVal ip)))
   | c :: t3 =>
     if c = '.' then
-      let fp := t3.takeWhile isDigit
-      let t4 := t3.dropWhile isDigit
-      if ip = [] ∧ fp = [] then none else
-      match lexExp t4 with
-      | some x => some (normDec neg (digitsVal (ip ++ fp)) (x.getD 0 - fp.length))
-      | none => none
+      (let fp := t3.takeWhile isDigit
+       let t4 := t3.dropWhile isDigit
+       if ip = [] ∧ fp = [] then none else
+       match lexExp t4 with
+       | some x => some (normDec neg (digitsVal (ip ++ fp)) (x.getD 0 - fp.length))
+       | none => none)
     else
       if ip = [] then none else
       match lexExp t2 with
       | some (some x) => some (normDec neg (digitsVal ip) x)
       | _ => none
+
+/-- the whole text as one INT_LIT / FLOAT_LIT token, and its value -/
+def lexNumber (t : Str) : Option CNum :=
+  match t with
+  | [] => none
+  | c :: r => if c = '-' then lexUnsigned true r else lexUnsigned false t
 
 /-! ## the repaired string encoder -/
 
